@@ -129,11 +129,200 @@ Proof.
   intros H Hx. unfold sess_inner in H.
   dH H; [fsame H|]. dH H; [discriminate|].
   destruct (r_method r); try (fsame H).
-  - unfold sess_announce in H. repeat dmatch; try discriminate; try (fsame H). inv H. apply framed_of; try reflexivity. apply same_slots_refl.
+  - unfold sess_announce in H. repeat dmatch; try discriminate; try (fsame H); inv H; apply framed_of; try reflexivity; apply same_slots_refl.
   - eapply sess_setup_frame; eassumption.
   - eapply sess_play_frame; eassumption.
   - eapply sess_record_frame; eassumption.
   - eapply sess_pause_frame; eassumption.
   - unfold sess_teardown in H. repeat dmatch; try discriminate; fsame H.
   - dH H; fsame H.
+Qed.
+
+(* ---- server-level frames ---- *)
+Definition sframe (x : N) (s s' : server) : Prop :=
+  find_sess x (v_sess s') = find_sess x (v_sess s) /\ same_slots x s s'.
+
+Lemma sframe_refl x s : sframe x s s.
+Proof. split; [reflexivity | apply same_slots_refl]. Qed.
+
+Lemma sframe_trans x a b c : sframe x a b -> sframe x b c -> sframe x a c.
+Proof. intros [A1 A2] [B1 B2]. split; [congruence | eapply same_slots_trans; eassumption]. Qed.
+
+Lemma sframe_set_sess x s ss : x <> s_id ss -> sframe x s (set_sess s ss).
+Proof.
+  intros Hx. split; [cbn [set_sess v_sess]; apply find_put_sess_other; exact Hx|].
+  unfold same_slots. cbn [set_sess v_readers v_active]. tauto.
+Qed.
+
+Lemma end_session_frame s t s' x : end_session s t = Some s' -> x <> t -> sframe x s s'.
+Proof.
+  intros H Hx. unfold end_session in H. destruct (find_sess t (v_sess s)) as [ss|] eqn:F; [|inv H; apply sframe_refl].
+  apply find_sess_In in F. destruct F as [_ Hid]. assert (Hx' : x <> s_id ss) by congruence.
+  match type of H with context [mkSrv (filter ?f (v_conns s)) ?a ?b ?c ?d ?e ?f0 ?g ?h] =>
+    set (s1 := mkSrv (filter f (v_conns s)) a b c d e f0 g h) in * end.
+  assert (F1 : v_sess s1 = v_sess s /\ same_slots x s s1) by (split; [reflexivity | unfold same_slots; cbn; tauto]).
+  assert (Mid : forall s3, (if s_stream ss then match reader_set_inactive s1 ss with Some s2 => reader_remove s2 ss | None => None end
+                            else Some s1) = Some s3 -> v_sess s3 = v_sess s /\ same_slots x s s3).
+  { intros s3 E. destruct (s_stream ss).
+    - destruct (reader_set_inactive s1 ss) as [s2|] eqn:E1; [|discriminate].
+      apply (reader_set_inactive_frame _ _ _ x) in E1; [|exact Hx']. apply (reader_remove_frame _ _ _ x) in E; [|exact Hx'].
+      destruct E1 as (A1 & _ & _ & A4), E as (B1 & _ & _ & B4), F1 as [F1a F1b]. split; [congruence|].
+      eapply same_slots_trans; [|exact B4]. eapply same_slots_trans; [exact F1b | exact A4].
+    - inv E. exact F1. }
+  dHas H ipattern:([s3|]) Em; [|discriminate].
+  destruct (Mid s3 eq_refl) as [M1 M2].
+  destruct (medias_stop s3 ss) as [s4|] eqn:E4; [|discriminate]. inv H.
+  apply (medias_stop_frame _ _ _ x) in E4. destruct E4 as (C1 & _ & _ & C4).
+  split.
+  - cbn [v_sess]. rewrite find_del_sess_other by exact Hx. congruence.
+  - eapply same_slots_trans; [exact M2|]. unfold same_slots in *. cbn [v_readers v_active]. tauto.
+Qed.
+
+Lemma close_conn_frame s cid s' x :
+  close_conn s cid = Some s' -> (forall c, find_conn cid (v_conns s) = Some c -> c_sess c <> Some x) -> sframe x s s'.
+Proof.
+  intros H Hc. unfold close_conn in H. destruct (find_conn cid (v_conns s)) as [c|] eqn:F; [|inv H; apply sframe_refl].
+  specialize (Hc c eq_refl).
+  match type of H with context [mkSrv (del_conn cid (v_conns s)) ?a ?b ?c0 ?d ?e ?f0 ?g ?h] =>
+    set (s1 := mkSrv (del_conn cid (v_conns s)) a b c0 d e f0 g h) in * end.
+  assert (F1 : sframe x s s1) by (split; [reflexivity | unfold same_slots; cbn; tauto]).
+  destruct (c_sess c) as [sid|]; [|inv H; exact F1].
+  destruct (find_sess sid (v_sess s1)) as [ss|] eqn:Fs; [|inv H; exact F1].
+  apply find_sess_In in Fs. destruct Fs as [_ Hid]. assert (Hx : x <> sid) by congruence.
+  match type of H with context [set_sess s1 ?y] => set (ss' := y) in * end.
+  assert (F2 : sframe x s (set_sess s1 ss')).
+  { eapply sframe_trans; [exact F1|]. apply sframe_set_sess. cbn. congruence. }
+  repeat dmatch; try discriminate; try (inv H; exact F2);
+    (eapply sframe_trans; [exact F2|]; eapply end_session_frame; [eassumption | exact Hx]).
+Qed.
+
+Lemma sess_request_frame g s c ss0 r s2 st e sess' adv x :
+  sess_request g s c ss0 r = Some (s2, st, e, sess', adv) -> x <> s_id ss0 ->
+  sframe x s s2 /\ sess' <> Some x.
+Proof.
+  intros H Hx. unfold sess_request in H.
+  match type of H with context [sess_inner g (set_sess s ?y) c ?y r] => set (ss := y) in * end.
+  assert (F0 : sframe x s (set_sess s ss)) by (apply sframe_set_sess; exact Hx).
+  destruct (sess_inner g (set_sess s ss) c ss r) as [[[[s1 ss1] st1] e1]|] eqn:Ei; [|discriminate].
+  apply (sess_inner_frame _ _ _ _ _ _ _ _ _ x) in Ei; [|exact Hx]. destruct Ei as (A & B & C & D & E).
+  assert (Hx1 : x <> s_id ss1) by (rewrite D; exact Hx).
+  assert (F1 : sframe x s (set_sess s1 ss1)).
+  { split.
+    - cbn [set_sess v_sess]. rewrite find_put_sess_other by exact Hx1. rewrite A. apply F0.
+    - eapply same_slots_trans; [apply F0|]. unfold same_slots in *. cbn [set_sess v_readers v_active] in *. tauto. }
+  assert (Gen : forall a, Some (set_sess s1 ss1, st1, e1, Some (s_id ss1), a) = Some (s2, st, e, sess', adv) ->
+                    sframe x s s2 /\ sess' <> Some x).
+  { intros a E0. inv E0. split; [exact F1|]. congruence. }
+  destruct (r_method r); try (eapply Gen; exact H).
+  destruct (match e1 with RErr => false | _ => true end); [|eapply Gen; exact H].
+  match type of H with context [set_sess s1 ?y] => set (ss2 := y) in * end.
+  destruct (end_session (set_sess s1 ss2) (s_id ss2)) as [s3|] eqn:E3; [|discriminate]. inv H.
+  split; [|discriminate].
+  assert (F2 : sframe x s (set_sess s1 ss2)).
+  { split.
+    - cbn [set_sess v_sess]. rewrite find_put_sess_other by (cbn; exact Hx1). rewrite A. apply F0.
+    - eapply same_slots_trans; [apply F0|]. unfold same_slots in *. cbn [set_sess v_readers v_active] in *. tauto. }
+  eapply sframe_trans; [exact F2|]. eapply end_session_frame; [exact E3 | cbn; exact Hx1].
+Qed.
+
+Lemma in_session_frame g s c r create s1 st e sess' adv x :
+  in_session g s c r create = Some (s1, st, e, sess', adv) ->
+  c_sess c <> Some x -> r_sess r <> Some x -> x <> v_next s ->
+  sframe x s s1 /\ sess' <> Some x.
+Proof.
+  intros H Hc Hr Hn. unfold in_session in H.
+  destruct (c_sess c) as [sid|] eqn:Ecs.
+  - assert (Hx : x <> sid) by congruence.
+    dH H; [inv H; split; [apply sframe_refl | congruence]|].
+    destruct (find_sess sid (v_sess s)) as [ss|] eqn:F; [|inv H; split; [apply sframe_refl | congruence]].
+    apply find_sess_In in F. destruct F as [_ Hid]. eapply sess_request_frame; [exact H | congruence].
+  - dHas H ipattern:([ss|]) F.
+    + assert (Hx : x <> s_id ss).
+      { destruct (r_sess r) as [id|]; [|discriminate]. apply find_sess_In in F. destruct F as [_ Hid]. congruence. }
+      dH H; [inv H; split; [apply sframe_refl | discriminate]|]. eapply sess_request_frame; [exact H | exact Hx].
+    + destruct create; [|inv H; split; [apply sframe_refl | discriminate]].
+      match type of H with sess_request g ?sn c ?ssn r = _ => set (s0 := sn) in *; set (ssn0 := ssn) in * end.
+      apply (sess_request_frame _ _ _ _ _ _ _ _ _ _ x) in H; [|cbn; exact Hn]. destruct H as [Hf Hs]. split; [|exact Hs].
+      eapply sframe_trans; [|exact Hf]. split.
+      * cbn [v_sess s0 find_sess ssn0 s_id]. destruct (v_next s =? x) eqn:E; [apply N.eqb_eq in E; congruence | reflexivity].
+      * unfold same_slots. cbn. tauto.
+Qed.
+
+Lemma conn_request_frame g s c r s1 st e sess' adv x :
+  conn_request g s c r = Some (s1, st, e, sess', adv) ->
+  c_sess c <> Some x -> r_sess r <> Some x -> x <> v_next s ->
+  sframe x s s1 /\ sess' <> Some x.
+Proof.
+  intros H Hc Hr Hn. unfold conn_request in H.
+  assert (Plain : forall (st0 : N) (e0 : rerr), Some (s, st0, e0, c_sess c, @None N) = Some (s1, st, e, sess', adv) ->
+            sframe x s s1 /\ sess' <> Some x).
+  { intros st0 e0 E. inv E. split; [apply sframe_refl | exact Hc]. }
+  dH H; [eapply Plain; exact H|]. dH H; [eapply Plain; exact H|].
+  cbv zeta in H.
+  destruct (r_method r); repeat dmatch; try (eapply Plain; exact H);
+    try (eapply in_session_frame; [exact H | exact Hc | congruence | exact Hn]).
+Qed.
+
+Lemma conn_event_frame g s c e s' o x :
+  conn_event g s c e = Some (s', o) ->
+  find_conn (c_id c) (v_conns s) = Some c ->
+  c_sess c <> Some x -> (forall r, e = EReq r -> r_sess r <> Some x) -> x <> v_next s ->
+  sframe x s s'.
+Proof.
+  intros H Fc Hc Hr Hn. unfold conn_event in H.
+  assert (Close : forall s1 o1, match close_conn s (c_id c) with None => None | Some s1 => Some (s1, OClosed) end = Some (s1, o1) ->
+                   sframe x s s1).
+  { intros s1 o1 E. destruct (close_conn s (c_id c)) as [s2|] eqn:E2; [|discriminate]. inv E.
+    eapply close_conn_frame; [exact E2|]. intros c' Fc'. rewrite Fc in Fc'. inv Fc'. exact Hc. }
+  destruct e as [r|ch| | |]; try (eapply Close; exact H).
+  - destruct (conn_request g s c r) as [[[[[s1 st] err] sess'] adv]|] eqn:Er; [|discriminate].
+    apply (conn_request_frame _ _ _ _ _ _ _ _ _ x) in Er; [|exact Hc | apply Hr; reflexivity | exact Hn].
+    destruct Er as [F1 Hs'].
+    destruct (find_conn (c_id c) (v_conns s1)) as [c0|] eqn:F0; [|inv H; exact F1].
+    match type of H with context [set_conn s1 ?y] => set (c1 := y) in * end.
+    assert (F2 : sframe x s (set_conn s1 c1)).
+    { eapply sframe_trans; [exact F1|]. split; [reflexivity | unfold same_slots; cbn; tauto]. }
+    destruct err as [| |t].
+    + inv H. exact F2.
+    + destruct (close_conn (set_conn s1 c1) (c_id c)) as [s3|] eqn:E3; [|discriminate]. inv H.
+      eapply sframe_trans; [exact F2|]. eapply close_conn_frame; [exact E3|].
+      intros c' Fc'. cbn [set_conn v_conns] in Fc'.
+      assert (c' = c1).
+      { apply find_conn_In in Fc'. destruct Fc' as [Hin Hid]. apply In_put_conn in Hin.
+        destruct Hin as [->|[_ Hne]]; [reflexivity|]. exfalso. apply Hne. rewrite Hid.
+        apply find_conn_In in F0. destruct F0 as [_ F0]. subst c1. cbn. congruence. }
+      subst c'. subst c1. cbn. exact Hs'.
+    + destruct t; [destruct sess'; [|discriminate]|]; inv H; exact F2.
+  - destruct (c_tcp c).
+    + destruct (c_sess c); [|discriminate]. inv H. apply sframe_refl.
+    + eapply Close; exact H.
+Qed.
+
+(* others_unaffected (partial): a step on connection cid leaves untouched every session that the
+   connection is not paired with and that the request does not name: its record (state, transport,
+   medias, attached connections, writer, timer) is identical and its reader / active-reader slots in
+   the stream are the same. *)
+Theorem others_unaffected_partial g s cid e s' o x ssx :
+  Inv s -> step g s (SConn cid e) = Some (s', o) ->
+  find_sess x (v_sess s) = Some ssx ->
+  (forall c, find_conn cid (v_conns s) = Some c -> c_sess c <> Some x) ->
+  (forall r, e = EReq r -> r_sess r <> Some x) ->
+  find_sess x (v_sess s') = Some ssx /\
+  (In x (v_readers s') <-> In x (v_readers s)) /\ (In x (v_active s') <-> In x (v_active s)).
+Proof.
+  intros I H Fx Hc Hr. cbn [step] in H.
+  destruct (find_conn cid (v_conns s)) as [c|] eqn:Fc; [|inv H; tauto].
+  assert (Hn : x <> v_next s).
+  { apply find_sess_In in Fx. destruct Fx as [Hin Hid]. pose proof (inv_fresh _ s I ssx Hin). lia. }
+  pose proof (find_conn_In _ _ _ Fc) as [_ Hid]. subst cid.
+  destruct (conn_event_frame g s c e s' o x H Fc (Hc c eq_refl) Hr Hn) as [A [B C]].
+  rewrite A. tauto.
+Qed.
+
+(* timers and writer errors of one session do not touch another *)
+Theorem others_unaffected_session_end g s t s' o x :
+  (step g s (STimeout t) = Some (s', o) \/ step g s (SWriterErr t) = Some (s', o)) -> x <> t -> sframe x s s'.
+Proof.
+  intros [H|H] Hx; cbn [step] in H; repeat dmatch; try discriminate; inv H; try apply sframe_refl;
+    eapply end_session_frame; eassumption.
 Qed.
